@@ -157,6 +157,24 @@ notes_strength = {
  "agent7-C15": "strengthened: missed at first; every fault kind once more in a file that begins with blank lines and in an included file that begins with blank lines (the error names the line counted in its file)",
  "agent7-C16": "caught as the check stood (sizes of 2^32 and more)",
  "agent7-C17": "strengthened: missed at first; the pool holds programs that define one name several times in different spellings (macro redefined in another letter case, under .ifdef, three times; .set/.def/#define in several spellings)",
+ "agent8-C01": "strengthened: last-word slice - every form in the last one or two words of the flash of the smallest and the largest part that has it",
+ "agent8-C02": "strengthened: missed at first; a device-less program that has one gap of more than 64 Ki words often gets a second and a third, sized after the image that exists already (its length, half of it, one and a half times it)",
+ "agent8-C03": "strengthened: missed at first; targets written as sums and products of literals that do not fit 64 bits but would lie next to the instruction modulo 2^64 - on the line, through .equ (before and behind the use), through .set, as macro argument, as offset to pc (must fail)",
+ "agent8-C04": "strengthened: missed at first; every must-reject line of the respelled subset once more with what makes it unencodable behind a mid-line block comment (`0 /* base */ + 64`, `r1 /* rest */ , r2`): refused one way or the other, never assembled from what stands in front of the comment",
+ "agent8-C05": "caught as the check stood (character literals of every code 1..0x24f, added after round 7)",
+ "agent8-C06": "strengthened: missed at first; positions of code, data and EEPROM labels around 0xff/0x100, 0xffff/0x10000 and at 0x1f000 as operands of .db/.dw/.dd (bare, other case, in a sum, in parentheses, minus one; table before and behind the label; no device, ATmega2560, ATmega128)",
+ "agent8-C07": "caught as the check stood (per-device pipeline: full ATmega128 / ATmega2560 images)",
+ "agent8-C08": "strengthened: missed at first; one conditional directive line in seven is indented by 90-290 blanks or tabs, every fifth label in front of a directive is 180 characters long",
+ "agent8-C09": "strengthened: missed at first; four probes of macros that are entered again while they are being expanded, with the very same arguments, behind #define guards (mutual, self, ring of three) and counting down through an .equ",
+ "agent8-C10": "strengthened: missed at first; one program in three begins with `.set` lines that read pc (and a `.def`), followed by `.org`; half of those once more as `.org A` / `.set m = pc` / `.org B`",
+ "agent8-C11": "strengthened: missed at first; a third of the plain `.include` lines carry a label on the same line (in the flattened program it stands on its own line in front of the pasted lines), all referenced from a table at the end of the main file",
+ "agent8-C12": "caught as the check stood (flash filled by instructions out of macro calls, added after round 7)",
+ "agent8-C13": "strengthened: missed at first; every other line of the device x form sweep, a third of the lines of the allowed programs and half of the forbidden lines of the must-fail programs carry a label on the same line",
+ "agent8-C14": "caught as the check stood (comment texts with `@0` on `.endm` lines)",
+ "agent8-C15": "strengthened: missed at first; new fault kind: a label of the program (defined before or behind the line) in `.if` / `.org`, where it has no value yet - the line named must be the directive's",
+ "agent8-C16": "caught as the check stood (recursion behind segment switches, added after round 2)",
+ "agent8-C17": "strengthened: missed at first; pool programs that `.undef` / `#undef` a name that is #defined or .def-ed in several spellings",
+ "agent8-C18": "strengthened before it was confirmed: output names that look alike but are two files (letter case, trailing blank, composed vs decomposed é, `x/same.hex` vs `same.hex`) must both be written",
  "agent7-C18": "strengthened: missed at first; failing sources whose own texts say `warning:` / `info: ... 0 errors` (.error text, name of a missing include, an undefined symbol named warning) and a building source whose messages say `Failed to` / `error:`",
 }
 for f in sorted(glob.glob(f"{ROOT}/seeded/*/meta.json")):
